@@ -9,7 +9,8 @@ use zvcore::refcodec as rc;
 use zvcore::world;
 
 fn is_c05_class(c: &str) -> bool {
-    !e2::is_c06_class(c)
+    // (a live stream dropped by the queue is both: its items are lost - C05 - and its peer is never served again - C06)
+    !e2::is_c06_class(c) || c == "live-stream-dropped"
 }
 
 /// The messages peer `p` puts on the wire for receiving socket type `ty`, and
